@@ -30,6 +30,14 @@ def main():
         print(f"no check for {prop}")
         return 2
     ctx = common.Ctx(prop, tier, seed)
+    # watchdog: a hung check is an infrastructure failure (exit 2), never a verdict
+    import signal
+
+    def _timeout(signum, frame):
+        print(f"INFRA-ERROR {prop}: time limit exceeded ({tier})", file=sys.stderr, flush=True)
+        os._exit(2)
+    signal.signal(signal.SIGALRM, _timeout)
+    signal.alarm(int(os.environ.get("VERIF_TIME_LIMIT", "2400" if tier == "quick" else "21600")))
     try:
         ctx.lean = common.lean_stage(prop, thorough=(tier == "thorough"))
         if ctx.lean.get("broken"):
